@@ -9,7 +9,7 @@ HELD=" Held = no refuting execution among those observed (counts in the evidence
 META={
  "C01":M("exploration","C01","guard-page / cap==len input buffers (home-made memory sanitizer), panic recovery, child-process crash isolation with traced re-run, stall + hang watchdog, -race/checkptr build in thorough",
    "Every registered detector, the un-sliced tree walk and Detect are driven with every seed at every prefix length, injected 32-bit field values, mutants and targeted arithmetic families (zip/CRX/OLE/Matroska/escape tails/small boxes/nesting bombs), each input ending exactly at an inaccessible page with cap == len, under 10 limits incl. 0 and 2^32-1; every string / byte literal of the tree under test (parsed from the source at run time) as input, splice fragment and tail; cut / valueless HTML and XML declarations; readers and files on a subset. A panic, a fault on the guard page, a nil result or a non-returning call is a violation."+HELD,
-   "Trusted: Go runtime bounds checks, mmap/mprotect semantics, the watchdog thresholds (75 s stall, 90 s single case). linux/amd64 only."),
+   "Trusted: Go runtime bounds checks, mmap/mprotect semantics, the watchdog thresholds (120 s stall, 180 s single case). linux/amd64 only."),
  "C02":M("exploration","C02","result-invariant monitor (written from the statement) over every (value, error) returned under hostile charset labels, all entry points, failing readers / seekers / files, strace-injected kernel faults (close/read EIO), extended trees",
    "Every single byte 0x09-0xFF and runs over a hostile alphabet are spliced as charset labels into 9 declaration syntaxes; readers fail at every offset class with 19 classes of error values (incl. io.ErrUnexpectedEOF and wrapped io.EOF from the source itself), seekers fail, files are missing or directories; plus every seed prefix, mutants and generated documents. Each returned value is checked: String() parses, type registered, only charset on the three text types, finite bare registered ancestors ending at application/octet-stream, error => exactly application/octet-stream."+HELD,
    "Trusted: mime.ParseMediaType as the definition of validity; the snapshot hook for the set of registered names."),
